@@ -239,6 +239,10 @@ func runPQLayout(rep *Report) {
 			}
 			sizes = append(sizes, sz)
 		}
+		pqrun.LayoutFaultPct = 0
+		if i%3 == 2 {
+			pqrun.LayoutFaultPct = 15 // failing flushes: the same calls on the writer model with failures (C12Writer)
+		}
 		line, ackLine, fails := pqrun.LayoutAckCase(r, P, sizes, true)
 		rep.Programs++
 		rep.Steps += len(sizes)
@@ -251,8 +255,15 @@ func runPQLayout(rep *Report) {
 			}
 			if pqrun.LastWriterOps != "" {
 				fmt.Fprintln(tw, pqrun.LastWriterOps) // the same calls on the Lean writer model (C05Writer)
-				rep.Markers["writerops"]++
+				if pqrun.LayoutFaultPct > 0 {
+					rep.Markers["writeropsf"]++
+				} else {
+					rep.Markers["writerops"]++
+				}
 			}
+		}
+		if pqrun.LayoutCallsFailed > 0 {
+			rep.Markers["layout-call-failed"] += pqrun.LayoutCallsFailed
 		}
 		for k, f := range fails {
 			if k >= 2 {
